@@ -352,11 +352,16 @@ package codecs
 //@ pure vp9RefOff(p) = vp9LOff(p) + ite(vp9L(p), ite(vp9F(p), 1, 2), 0)
 //@ pure vp9NRef(p) = ite(vp9F(p) && vp9P(p), ite(bits(p[vp9RefOff(p)], 0, 0) == 0, 1, ite(bits(p[vp9RefOff(p) + 1], 0, 0) == 0, 2, 3)), 0)
 //@ pure vp9SSOff(p) = vp9RefOff(p) + vp9NRef(p)
+//@ pure bool vp9PidOK(p) = vp9I(p) ==> len(p) > 1 && len(p) > 1 + ite(bits(p[1], 7, 7) == 1, 1, 0)
+//@ pure bool vp9LayerOK(p) = vp9L(p) ==> len(p) > vp9LOff(p) && bits(p[vp9LOff(p)], 3, 1) < 5 && (vp9F(p) || len(p) > vp9LOff(p) + 1)
+//@ pure bool vp9RefOK(p) = vp9F(p) && vp9P(p) ==> len(p) > vp9RefOff(p) && (bits(p[vp9RefOff(p)], 0, 0) == 1 ==> len(p) > vp9RefOff(p) + 1 && (bits(p[vp9RefOff(p) + 1], 0, 0) == 1 ==> len(p) > vp9RefOff(p) + 2 && bits(p[vp9RefOff(p) + 2], 0, 0) == 0))
+//@ pure bool vp9SSOK(p) = vp9V(p) ==> len(p) > vp9SSOff(p) && (bits(p[vp9SSOff(p)], 4, 4) == 1 ==> len(p) > vp9SSOff(p) + 4*bits(p[vp9SSOff(p)], 7, 5) + 4) && (bits(p[vp9SSOff(p)], 3, 3) == 1 ==> len(p) > vp9SSOff(p) + 1 + ite(bits(p[vp9SSOff(p)], 4, 4) == 1, 4*bits(p[vp9SSOff(p)], 7, 5) + 4, 0) && int(p[vp9SSOff(p) + 1 + ite(bits(p[vp9SSOff(p)], 4, 4) == 1, 4*bits(p[vp9SSOff(p)], 7, 5) + 4, 0)]) == 0)
 
 //@ spec (*VP9Packet).parsePictureID
 //@   requires 0 <= pos
 //@   modifies p.PictureID
 //@   ensures short [C09,C12]: len(packet) <= pos ==> errIs(err, errShortPacket)
+//@   ensures accepted [C12]: len(packet) > pos && len(packet) > pos + ite(bits(packet[pos], 7, 7) == 1, 1, 0) ==> err == nil
 //@   ensures value [C12,C09]: err == nil ==> result0 == pos + ite(bits(packet[pos], 7, 7) == 1, 2, 1) && result0 <= len(packet) && int(p.PictureID) == ite(bits(packet[pos], 7, 7) == 1, bits(packet[pos], 6, 0) * 256 + int(packet[pos + 1]), bits(packet[pos], 6, 0))
 //@ end
 //@ spec (*VP9Packet).parseLayerInfo
@@ -364,6 +369,7 @@ package codecs
 //@   modifies p.TID, p.U, p.SID, p.D, p.TL0PICIDX
 //@   ensures short [C09,C12]: len(packet) <= pos ==> errIs(err, errShortPacket)
 //@   ensures value [C12,C09]: err == nil ==> int(p.TID) == bits(packet[pos], 7, 5) && (p.U <==> bits(packet[pos], 4, 4) == 1) && int(p.SID) == bits(packet[pos], 3, 1) && (p.D <==> bits(packet[pos], 0, 0) == 1)
+//@   ensures accepted [C12]: len(packet) > pos && bits(packet[pos], 3, 1) < 5 && (p.F || len(packet) > pos + 1) ==> err == nil
 //@   ensures tl0 [C12,C09]: err == nil ==> result0 == pos + ite(p.F, 1, 2) && result0 <= len(packet) && (!p.F ==> int(p.TL0PICIDX) == int(packet[pos + 1])) && (p.F ==> p.TL0PICIDX == old(p.TL0PICIDX))
 //@ end
 //@ spec (*VP9Packet).parseRefIndices
@@ -372,6 +378,7 @@ package codecs
 //@   modifies p.PDiff
 //@   loop 0: unroll 4 complete
 //@   ensures short [C09,C12]: len(packet) <= pos ==> errIs(err, errShortPacket)
+//@   ensures accepted [C12]: len(packet) > pos && (bits(packet[pos], 0, 0) == 1 ==> len(packet) > pos + 1 && (bits(packet[pos + 1], 0, 0) == 1 ==> len(packet) > pos + 2 && bits(packet[pos + 2], 0, 0) == 0)) ==> err == nil
 //@   ensures count [C12,C09]: err == nil ==> len(p.PDiff) == ite(bits(packet[pos], 0, 0) == 0, 1, ite(bits(packet[pos + 1], 0, 0) == 0, 2, 3)) && result0 == pos + len(p.PDiff) && result0 <= len(packet)
 //@   ensures values [C12,C09]: err == nil ==> (forall k :: 0 <= k && k < len(p.PDiff) ==> int(p.PDiff[k]) == bits(packet[pos + k], 7, 1))
 //@ end
@@ -385,6 +392,7 @@ package codecs
 //@   loop 1: decreases 256 - i
 //@   loop 2: unroll 4 complete
 //@   ensures short [C09,C12]: len(packet) <= pos ==> errIs(err, errShortPacket)
+//@   ensures accepted_without_groups [C12]: len(packet) > pos && (bits(packet[pos], 4, 4) == 1 ==> len(packet) > pos + 4*bits(packet[pos], 7, 5) + 4) && (bits(packet[pos], 3, 3) == 1 ==> len(packet) > pos + 1 + ite(bits(packet[pos], 4, 4) == 1, 4*bits(packet[pos], 7, 5) + 4, 0) && int(packet[pos + 1 + ite(bits(packet[pos], 4, 4) == 1, 4*bits(packet[pos], 7, 5) + 4, 0)]) == 0) ==> err == nil
 //@   ensures head [C12,C09]: err == nil ==> int(p.NS) == bits(packet[pos], 7, 5) && (p.Y <==> bits(packet[pos], 4, 4) == 1) && (p.G <==> bits(packet[pos], 3, 3) == 1)
 //@   ensures resolutions [C12,C09]: err == nil && p.Y ==> len(p.Width) == int(p.NS) + 1 && len(p.Height) == int(p.NS) + 1 && (forall k :: 0 <= k && k <= int(p.NS) ==> int(p.Width[k]) == be16(packet, pos + 1 + 4*k) && int(p.Height[k]) == be16(packet, pos + 3 + 4*k))
 //@   ensures no_resolutions [C12,C09]: err == nil && !p.Y ==> len(p.Width) == len(old(p.Width)) && len(p.Height) == len(old(p.Height))
@@ -396,6 +404,7 @@ package codecs
 //@   modifies p.*
 //@   ensures nilpacket [C12,C09]: packet == nil ==> errIs(err, errNilPacket)
 //@   ensures empty [C12,C09]: packet != nil && len(packet) == 0 ==> errIs(err, errShortPacket)
+//@   ensures accepted [C12]: len(packet) >= 1 && vp9PidOK(packet) && vp9LayerOK(packet) && vp9RefOK(packet) && vp9SSOK(packet) ==> err == nil
 //@   ensures flags [C12,C09]: err == nil ==> (p.I <==> vp9I(packet)) && (p.P <==> vp9P(packet)) && (p.L <==> vp9L(packet)) && (p.F <==> vp9F(packet)) && (p.B <==> bits(packet[0], 3, 3) == 1) && (p.E <==> bits(packet[0], 2, 2) == 1) && (p.V <==> vp9V(packet)) && (p.Z <==> bits(packet[0], 0, 0) == 1)
 //@   ensures picture_id [C12,C09]: err == nil ==> int(p.PictureID) == ite(vp9I(packet), ite(bits(packet[1], 7, 7) == 1, bits(packet[1], 6, 0) * 256 + int(packet[2]), bits(packet[1], 6, 0)), 0)
 //@   ensures layer [C12,C09]: err == nil ==> int(p.TID) == ite(vp9L(packet), bits(packet[vp9LOff(packet)], 7, 5), 0) && (p.U <==> vp9L(packet) && bits(packet[vp9LOff(packet)], 4, 4) == 1) && int(p.SID) == ite(vp9L(packet), bits(packet[vp9LOff(packet)], 3, 1), 0) && (p.D <==> vp9L(packet) && bits(packet[vp9LOff(packet)], 0, 0) == 1)
